@@ -63,6 +63,7 @@ import Restful.Lemmas.Allow
 import Restful.Lemmas.AllowHolds
 import Restful.Lemmas.StateShape
 import Restful.Lemmas.TieImpTemplate
+import Restful.Lemmas.TieImpAllowed
 namespace Restful
 namespace Props
 open Str
@@ -762,3 +763,4 @@ end Restful.C17Holds
 -- the imperative functions this property's model rests on, tied to their statement-by-statement
 -- translation (tools/goimp, Gen/Imp.lean, regenerated on every run):
 -- also: Restful.TieImp.template_to_regex
+-- also: Restful.TieImp.compute_allowed_methods
